@@ -11,6 +11,15 @@
  * inserts a slot more than once can double the stream with every pass */
 #define THEO_MACRO_MAX_TOKENS (1u << 20)
 
+#ifdef THEO_VERIF
+#include <atomic>
+namespace Theo {
+/* verification hook: number of macro passes begun in this process (progress
+ * indicator for the harness watchdog; no effect on behaviour) */
+extern std::atomic<unsigned long> verif_macro_passes;
+}  // namespace Theo
+#endif
+
 namespace Theo {
 
 struct ParseResult {
